@@ -13,7 +13,7 @@ from core import Plugin, CheckError
 URIS = ["http://a.test", "https://a.test", "http://a.test:8080", "http://b.test", "http://A.TEST",
         "HTTP://a.test", "http://a.test:80", "",
         "http://a.test|b.test", "http://b.test|a.test", "http://a.test|a.test",   # "<uri>|<Host header>"
-        "http://u:p@a.test:8080", "http://x@a.test"]
+        "http://u:p@a.test:8080", "http://x@a.test", "ws://a.test", "wss://a.test"]
 URIS = URIS + [""] * (100 - len(URIS)) + [f"http://o{u}.test" for u in range(100, 400)]   # synthetic origins
 TIMEOUT_MS = 400
 TICK_MS = 1000
@@ -42,7 +42,9 @@ def op_str(o):
     if k == "I":
         return f"I{o[1]}.{o[2]}"
     if k == "D":
-        return f"D{o[1]}.{o[2]}"
+        # a failing handshake after the transport had negotiated h2 ("H") is the same environment step for the model as
+        # one after a plain transport ("h"): hidden variation, odd request ids get it
+        return f"D{o[1]}.{'H' if o[2] == 'h' and o[1] % 2 == 1 else o[2]}"
     if k == "B":
         return "B"
     return f"{k}{o[1]}"
@@ -156,6 +158,9 @@ def gen_history(rng, nops, nkeys, timed, weights=None):
     if rng.random() < 0.12:
         # userinfo in the authority next to the same host with other ports
         keys = keys + rng.sample([11, 12, 0, 2, 6], 3)
+    if rng.random() < 0.12:
+        # websocket schemes next to http / https with the same authority
+        keys = keys + rng.sample([13, 14, 0, 1], 3)
     ops = []
     nreq = 0
     nconn = 0
@@ -241,7 +246,7 @@ def gen_template(rng):
     k = rng.randrange(7)
     pb = rng.choice([1, 2])
     t = rng.choice(["preempt_owner", "preempt_owner", "pop_window", "pushback", "owner_fails", "refill", "refill",
-                    "owner_dropped", "owner_dropped", "bg_attempt_dies", "bg_attempt_dies", "queued_waiters", "queued_waiters"])
+                    "owner_dropped", "owner_dropped", "bg_attempt_dies", "bg_attempt_dies", "queued_waiters", "queued_waiters", "window_bg_dies"])
     if t == "preempt_owner":
         ops = [["I", k, 1], ["P", 0], ["D", 0, "o"], ["P", 0],
                ["I", k, 2], ["P", 1], ["I", k, pb], ["P", 2],
@@ -283,6 +288,17 @@ def gen_template(rng):
         ops += rng.choice([[["D", 0, "o"], ["B"]], [["D", 0, "c"], ["B"]], [["B"], ["D", 0, "o"], ["B"]]])
         ops += [["P", 1], ["I", k, 2], ["P", 3 if len([o for o in ops if o[0] == "I"]) == 3 else 2]]
         nreq, nconn = 4, 2
+    elif t == "window_bg_dies":
+        # a shared handle popped by an unpolled request; in that window another HTTP/2 request dials; the first is
+        # polled (the handle is pushed back and pre-empts the dialer); the dialer's abandoned attempt then dies
+        # (handshake / connect) or succeeds in the background; the shared connection closes; newcomers
+        ops = [["I", k, 2], ["P", 0], ["D", 0, rng.choice("oa")], ["P", 0],
+               ["I", k, 2], ["I", k, 2], ["P", 2], ["P", 1], ["P", 2]]
+        ops += rng.choice([[["D", 2, "h"]], [["D", 2, "h"]], [["D", 2, "c"]], [["D", 2, "o"]], []]) + [["B"]]
+        ops += rng.choice([[["C", 0]], [["C", 0]], []])
+        ops += [["I", k, 2], ["P", 3], ["B"], ["P", 3]]
+        ops += rng.choice([[], [["I", k, pb], ["P", 4]]])
+        nreq, nconn = 5, 2
     elif t == "queued_waiters":
         # several holders, several queued requests (unpolled, or polled once so that their own dial is pending);
         # the holders release one after the other, each hand-back runs before the next; then the queue is polled
@@ -525,9 +541,9 @@ class Pool(Plugin):
                                "re-issue injected into the window between an Issue and its first poll), phase-structured histories "
                                "(bursts served, partial releases + hand-back, ticks, peer closes, newcomers), timed 'aging' histories "
                                f"(real sleeps: {TICK_MS} ms ticks vs a {TIMEOUT_MS} ms idle timeout; {kinds['timed']} timed cases) and perturbed interleaving "
-                               "templates (pre-empted owner, pop window, push-back, failing owner, refill at the idle limit, owner dropped, abandoned background attempt dying after the queue emptied, several queued requests served by successive hand-backs) and idle-limit "
+                               "templates (pre-empted owner, pop window, push-back, failing owner, refill at the idle limit, owner dropped, abandoned background attempt dying after the queue emptied, several queued requests served by successive hand-backs, a dial started inside the shared-handle window whose abandoned attempt dies) and idle-limit "
                                "histories (idle list driven to max_idle, entries closed in place, further releases, newcomers); 1-3 origins "
-                               "from a table of 7 URIs differing in scheme/port/host/case + one without scheme + 3 whose request carries an explicit Host header naming another or the same origin + 2 with userinfo in the authority, h1/h2/ALPN mixed, dial "
+                               "from a table of 7 URIs differing in scheme/port/host/case + one without scheme + 3 whose request carries an explicit Host header naming another or the same origin + 2 with userinfo in the authority + ws / wss next to http / https, h1/h2/ALPN mixed, dial "
                                f"outcomes ok/alpn/connect-error/handshake-error; {kinds['drained']} cases end with the closing procedure + probe",
                        "exhaustive": False}
 
